@@ -148,7 +148,7 @@ def vary_cases(draw):
     if draw(st.integers(0, 2)) == 0:
         # salts that differ only in their blanks / letter case / normal form / after a comment look-alike
         salts = list(draw(st.sampled_from([("a b", "a  b"), ("a b", "a\tb"), ("x ", "x  "), ("checkout v2", "checkout  v2"), (" s", "s"),
-                                           ("s", "s "), ("Exp", "exp"), ("é", "é"), ("u//1", "u//2"), ("q", "q'"), ("ﬁ", "fi"),
+                                           ("s", "s "), ("Exp", "exp"), ("\u00e9", "e\u0301"), ("\u2126", "\u03a9"), ("u//1", "u//2"), ("q", "q'"), ("ﬁ", "fi"),
                                            ("p /* 1 */", "p /* 2 */")])))
     else:
         salts = draw(st.lists(st.sampled_from(["a", "b", "s1", "s2", "exp", "exp2", "A", " a", "a ", "é", "v1", "v2", "1", "2"]),
@@ -171,6 +171,8 @@ def _units(case, n):
 
 def judge_vary(case):
     ws, f = case["ws"], case["field"]
+    if case["salts"][0] == case["salts"][1]:
+        raise runner.HarnessError("generator produced two identical salts: %r" % (case["salts"],))
     body = M.ret([(M.lit_str("g%d" % j), w) for j, w in enumerate(ws)])
     if case["cond"]:
         body = M.if_([(M.cmp_(M.ident("plan"), "==", M.lit_str("pro")), body)], M.ret([(M.lit_str("other"), "1")]))
